@@ -56,7 +56,11 @@ REQUIRED_CLASSES = ['top:' + c for c in TOP_CLASSES] + [
     'LSR:floats', 'LSR:objects', 'References:fitted', 'References:offset_only', 'References:refs_and_offset',
     'PhaseDiagram:norm_factors', 'PhaseDiagram:default_norm', 'SurfaceReaction:id',
     'SurfaceReaction:direction', 'Reactions:mixed_classes', 'children:plain', 'children:rich',
-    'cycles:1', 'cycles:2', 'cycles:3', 'depth>=3']
+    'cycles:1', 'cycles:2', 'cycles:3', 'depth>=3',
+    'References:cleared_offset', 'StatMech:references_cleared_offset', 'Nasa9:n_sites_None',
+    'Nasa9:n_sites_int', 'Shomate:n_sites_int', 'Nasa:n_sites_without_cat_site', 'misc_models:empty_list',
+    'BEP:backlinks_distinct', 'BEP:backlinks_shared', 'SurfaceReaction:use_motz_wise',
+    'SurfaceReaction:beta_None', 'SurfaceReaction:sticking_None', 'FreeTrans:no_molecular_weight']
 # to_dict of every class must have been seen running; from_dict of every class that the
 # unchanged registry knows (a class that silently stops being decoded makes the run inconclusive
 # if it does not already make it a violation)
@@ -83,7 +87,17 @@ ASSUMPTIONS = [
     'already differ are not evaluated (extra.getters_shadowed): the root cause is what is reported',
     'ExtendedLSR is not named by the quantifier: its to_dict is exercised as telemetry only '
     '(extra.ExtendedLSR)',
+    'the OpenMKM back references are checked structurally instead: after a decode every BEP of the '
+    'decoded tree lists exactly the decoded reactions that use it (per direction), the original '
+    "tree's lists keep their lengths and a second decode gives lists of the same lengths",
+    'a gas species built with add_gas_P_adj=False is exercised as telemetry only '
+    '(extra.add_gas_P_adj_False): the flag is not an attribute of the object, see GEN_NO_P_ADJ',
 ]
+# A gas-phase Nasa/Shomate/Nasa9 built with add_gas_P_adj=False comes back WITH a GasPressureAdj
+# (the flag is not stored, the constructor re-attaches on reload).  Genuine defect found while
+# strengthening; set to True to turn the telemetry into a generated stratum with verdicts once it
+# is fixed or listed.
+GEN_NO_P_ADJ = False
 TOL = 1e-12
 
 
@@ -135,7 +149,10 @@ def g_mode(rng, kind):
     if kind == 'ConstantMode':
         return g_constant(rng)
     if kind == 'FreeTrans':
-        return S.gen_trans(rng, allow_none=False)
+        m = S.gen_trans(rng, allow_none=False)
+        if rng.random() < 0.15:
+            m['molecular_weight'] = None        # the documented default; getters then refuse on both sides
+        return m
     if kind in ('HarmonicVib', 'QRRHOVib', 'EinsteinVib', 'DebyeVib'):
         return S.gen_vib(rng, allow_none=False, kinds=(kind,))
     if kind == 'RigidRotor':
@@ -178,6 +195,8 @@ def g_statmech(rng, name, rich=True, depth=0):
         sm['misc_models'] = [g_cov(rng) for _ in range(rng.randint(1, 2))]
         if rng.random() < 0.3:
             sm['misc_models'].append(g_constant(rng))
+    elif rng.random() < 0.1:
+        sm['misc_models'] = []
     if rng.random() < (0.45 if depth < 1 else 0.08):
         sm['references'] = g_references(rng, fitted=rng.random() < 0.7)
         if sm['elements'] is None:
@@ -209,11 +228,16 @@ def g_references(rng, fitted=True):
     if rng.random() < 0.2:
         refs[-1]['T_ref'] = _r(rng, 200, 600, 2)      # unequal reference temperatures (mean is used)
     offset = None
-    if rng.random() < 0.3:
+    cleared = False
+    u = rng.random()
+    if u < 0.25:
         # reference species kept together with a hand-set offset (no fit at construction)
         offset = {e: _r(rng, -30, 30, 6) for e in els}
+    elif u < 0.5:
+        # fitted, then clear_offset(): offset == {} while the reference species are still there
+        cleared = True
     return {'type': 'References', 'references': refs, 'offset': offset, 'descriptor': 'elements',
-            'T_ref': T_ref}
+            'T_ref': T_ref, 'cleared': cleared}
 
 
 def _fix_range(sp, rng):
@@ -244,13 +268,20 @@ def g_empirical(rng, kind, name, rich=True, phase=None):
         return sp
     sp['notes'] = rng.choice(NOTES)
     sp['smiles'] = rng.choice(SMILES)
-    sp['n_sites'] = rng.choice([None, 1, 2, 3])
+    # explicit option values, None included: Nasa9 defaults to n_sites=1, Nasa / Shomate to None,
+    # so "key absent" and "value None" are different objects for some of the classes
+    sp['n_sites'] = rng.choice([None, None, 1, 2, 3])
     if kind == 'Nasa' and rng.random() < 0.4:
         sp['cat_site'] = g_catsite(rng)
     if rng.random() < 0.3:
         sp['model'] = g_statmech(rng, name, rich=rng.random() < 0.5, depth=1)
     if rng.random() < 0.3:
         sp['misc_models'] = [g_cov(rng) for _ in range(rng.randint(1, 2))]
+    elif rng.random() < 0.15:
+        sp['misc_models'] = []
+    if GEN_NO_P_ADJ and rng.random() < 0.15:
+        sp['phase'] = 'G'
+        sp['add_gas_P_adj'] = False
     return sp
 
 
@@ -312,9 +343,9 @@ def g_reaction(rng, cls='Reaction', pool=None, rich=None, kinds=None, names=None
         node['id'] = rng.choice([None, None, 7, 'r_0012', 'BEP_CH_cle_0001'])
         node['is_adsorption'] = rng.random() < 0.4
         node['A'] = rng.choice([None, None, S.logu(rng, 1e8, 1e15)])
-        node['beta'] = rng.choice([None, 0.0, 1.0, _r(rng, -1, 2, 2)])
-        node['Ea'] = rng.choice([None, None, _r(rng, 0, 50, 3)])
-        node['sticking_coeff'] = rng.choice([None, _r(rng, 0.01, 1, 3)])
+        node['beta'] = rng.choice([None, None, 0.0, 1.0, _r(rng, -1, 2, 2)])
+        node['Ea'] = rng.choice([None, None, 0.0, _r(rng, 0, 50, 3)])
+        node['sticking_coeff'] = rng.choice([None, None, 1.0, _r(rng, 0.01, 1, 3)])
         node['direction'] = rng.choice([None, 'cleavage', 'synthesis'])
         node['use_motz_wise'] = rng.random() < 0.4
     if own:
@@ -345,10 +376,34 @@ def g_reactions(rng, cls='Reactions'):
         rc = rng.choice(['Reaction', 'ChemkinReaction', 'SurfaceReaction']) if mixed else 'Reaction'
         rxns.append(g_reaction(rng, rc, pool=pool, rich=rich))
     node = {'type': cls, 'species': pool, 'reactions': rxns, 'mixed': mixed, 'rich': rich}
+    if cls == 'Reactions' and rng.random() < 0.4:
+        _add_bep_reactions(rng, node, pool, rich, shared=rng.random() < 0.5)
     if cls == 'PhaseDiagram':
         mode = rng.choice(['none', 'list', 'array'])
         node['norm_factors'] = None if mode == 'none' else [_r(rng, 0.5, 20, 3) for _ in rxns]
         node['norm_as_array'] = mode == 'array'
+    return node
+
+
+def _add_bep_reactions(rng, node, pool, rich, shared):
+    """Two (or three) SurfaceReactions whose transition state is an OpenMKM BEP with a direction:
+    either every reaction with its own BEP (built with the default lists) or all sharing one."""
+    n = rng.randint(2, 3)
+    if shared:
+        node['shared_bep'] = g_bep(rng, omkm=True, named=True)
+    for _ in range(n):
+        r = g_reaction(rng, 'SurfaceReaction', pool=pool, rich=rich)
+        r['direction'] = rng.choice(['synthesis', 'cleavage'])
+        r['transition_state_stoich'] = [1]
+        if shared:
+            r.pop('bep', None)
+            r['transition_state'] = ['@shared_bep']
+        else:
+            r['bep'] = g_bep(rng, omkm=True, named=True)
+            r['transition_state'] = ['@bep']
+        node['reactions'].append(r)
+    node['bep_links'] = 'shared' if shared else 'distinct'
+    node['mixed'] = True
     return node
 
 
@@ -500,6 +555,46 @@ def directed(tier):
     nameless.pop('bep', None)
     D.append({'cls': 'Reaction', 'obj': nameless, 'cycles': 1, 'conds': g_conds(rng)})
     D.append({'cls': 'LSR', 'obj': {'type': 'ExtendedLSR'}, 'cycles': 1, 'conds': g_conds(rng), 'telemetry': True})
+    # ---- strata added after seeded bugs were missed (own PRNG: the cases above stay as they were) ----
+    r2 = random.Random('C11:directed:round2')
+    # OpenMKM BEP back references: two reactions with their own BEP (default lists), two sharing one
+    for shared in (False, True, False, True):
+        node = g_reactions(r2, 'Reactions')
+        node.pop('shared_bep', None)
+        node['reactions'] = [r for r in node['reactions'] if r['type'] != 'SurfaceReaction' or not r.get('bep')][:1]
+        _add_bep_reactions(r2, node, node['species'], node['rich'], shared=shared)
+        D.append({'cls': 'Reactions', 'obj': node, 'cycles': 1, 'conds': g_conds(r2)})
+    for d in ('synthesis', 'cleavage'):
+        sp = {'cls': 'SurfaceReaction', 'obj': g_reaction(r2, 'SurfaceReaction'), 'cycles': 2, 'conds': g_conds(r2)}
+        sp['obj'].update(bep=g_bep(r2, omkm=True, named=True), transition_state=['@bep'],
+                         transition_state_stoich=[1], direction=d, use_motz_wise=True, beta=None,
+                         sticking_coeff=None)
+        D.append(sp)
+    # References fitted and then cleared: offset == {} while the reference species are still there
+    for k in range(2):
+        refs = g_references(r2, fitted=True)
+        refs.update(offset=None, cleared=True)
+        D.append({'cls': 'References', 'obj': refs, 'cycles': 1 + k, 'conds': g_conds(r2)})
+        sm2 = g_statmech(r2, 'CH4', rich=False)
+        sm2.pop('plain')
+        sm2.update(elements={e: 1 for r in refs['references'] for e in r['elements']},
+                   references=copy.deepcopy(refs))
+        D.append({'cls': 'StatMech', 'obj': sm2, 'cycles': 1 + k, 'conds': g_conds(r2)})
+    # explicit option values that differ from the constructor default / from "key absent"
+    for kind, ns in (('Nasa9', None), ('Nasa9', 2), ('Nasa9', 1), ('Shomate', None), ('Shomate', 3),
+                     ('Nasa', None), ('Nasa', 2)):
+        sp = g_empirical(r2, kind, 'CO(S)', rich=True)
+        sp['n_sites'] = ns
+        sp.pop('cat_site', None)
+        D.append({'cls': kind, 'obj': sp, 'cycles': 1, 'conds': g_conds(r2)})
+    sp = g_empirical(r2, 'Nasa', 'CO(S)', rich=True)
+    sp.update(n_sites=None, cat_site=g_catsite(r2), misc_models=[], phase='G')
+    D.append({'cls': 'Nasa', 'obj': sp, 'cycles': 2, 'conds': g_conds(r2)})
+    sm3 = g_statmech(r2, 'H2O', rich=True)
+    sm3['misc_models'] = []
+    D.append({'cls': 'StatMech', 'obj': sm3, 'cycles': 1, 'conds': g_conds(r2)})
+    D.append({'cls': 'FreeTrans', 'obj': {'type': 'FreeTrans', 'n_degrees': 2, 'molecular_weight': None},
+              'cycles': 1, 'conds': g_conds(r2)})
     return D
 
 
@@ -510,15 +605,19 @@ def _build_species(node):
     t = node['type']
     if t == 'StatMech':
         refs = build(node['references']) if node.get('references') else None
-        misc = [build(m) for m in node['misc_models']] if node.get('misc_models') else None
+        misc = [build(m) for m in node['misc_models']] if node.get('misc_models') is not None else None
         return S.build_statmech(node, references=refs, misc_models=misc)
     extra = {}
     if node.get('model'):
         extra['model'] = build(node['model'])
-    if node.get('misc_models'):
+    if node.get('misc_models') is not None:
         extra['misc_models'] = [build(m) for m in node['misc_models']]
     if node.get('cat_site'):
         extra['cat_site'] = build(node['cat_site'])
+    if 'n_sites' in node:
+        extra['n_sites'] = node['n_sites']          # passed even when None (S.build drops None)
+    if node.get('add_gas_P_adj') is False:
+        extra['add_gas_P_adj'] = False
     return S.build(node, **extra)
 
 
@@ -575,9 +674,12 @@ def build(node):
         from pmutt.empirical.references import References
         if node['references'] is None:
             return References(offset=dict(node['offset']), descriptor=node['descriptor'], T_ref=node['T_ref'])
-        return References(offset=dict(node['offset']) if node.get('offset') else None,
+        refs = References(offset=dict(node['offset']) if node.get('offset') else None,
                           references=[build(r) for r in node['references']], descriptor=node['descriptor'],
                           T_ref=node['T_ref'])
+        if node.get('cleared'):
+            refs.clear_offset()
+        return refs
     if t == 'GasPressureAdj':
         from pmutt.empirical import GasPressureAdj
         return GasPressureAdj()
@@ -608,6 +710,8 @@ def build(node):
         return _build_reaction(node)
     if t in ('Reactions', 'PhaseDiagram'):
         pool_objs = {nm: build(sp) for nm, sp in node['species'].items()}
+        if node.get('shared_bep'):
+            pool_objs['@shared_bep'] = build(node['shared_bep'])
         rxns = [_build_reaction(r, pool_objs) for r in node['reactions']]
         if t == 'Reactions':
             from pmutt.reaction import Reactions
@@ -1297,6 +1401,29 @@ def _classify(spec, ctx):
                 ctx.cls('StatMech:plain')
         if t == 'GroundStateElec' and node.get('D0') is not None:
             ctx.cls('GroundStateElec:D0')
+        if t == 'StatMech' and node.get('references') and node['references'].get('cleared'):
+            ctx.cls('StatMech:references_cleared_offset')
+        if t == 'References' and node.get('cleared'):
+            ctx.cls('References:cleared_offset')
+        if t == 'Nasa9' and 'n_sites' in node:
+            ctx.cls('Nasa9:n_sites_None' if node['n_sites'] is None else 'Nasa9:n_sites_int')
+        if t == 'Shomate' and node.get('n_sites') is not None:
+            ctx.cls('Shomate:n_sites_int')
+        if t == 'Nasa' and node.get('n_sites') is not None and not node.get('cat_site'):
+            ctx.cls('Nasa:n_sites_without_cat_site')
+        if t in ('StatMech', 'Nasa', 'Nasa9', 'Shomate') and node.get('misc_models') == []:
+            ctx.cls('misc_models:empty_list')
+        if t == 'Reactions' and node.get('bep_links'):
+            ctx.cls('BEP:backlinks_' + node['bep_links'])
+        if t == 'FreeTrans' and node.get('molecular_weight') is None:
+            ctx.cls('FreeTrans:no_molecular_weight')
+        if t == 'SurfaceReaction':
+            if node.get('use_motz_wise'):
+                ctx.cls('SurfaceReaction:use_motz_wise')
+            if node.get('beta') is None:
+                ctx.cls('SurfaceReaction:beta_None')
+            if node.get('sticking_coeff') is None:
+                ctx.cls('SurfaceReaction:sticking_None')
         if t == 'Nasa' and node.get('cat_site'):
             ctx.cls('Nasa:cat_site')
         if t == 'Nasa' and node.get('model'):
@@ -1336,6 +1463,80 @@ def _classify(spec, ctx):
     if maxdepth >= 3:
         ctx.cls('depth>=3')
     ctx.nontrivial(nested >= 1 or nondefault)
+
+
+def _surface_rxns(o):
+    """SurfaceReactions of a tree that carry a BEP (top-level reaction or members of a set)"""
+    try:
+        from pmutt.omkm.reaction import SurfaceReaction
+    except Exception:
+        return []
+    if isinstance(o, SurfaceReaction):
+        cand = [o]
+    else:
+        rx = getattr(o, 'reactions', None)
+        cand = [r for r in rx if isinstance(r, SurfaceReaction)] if isinstance(rx, list) else []
+    return [r for r in cand if getattr(r, 'bep', None) is not None]
+
+
+def _bep_lengths(o):
+    return [(len(r.bep.synthesis_reactions), len(r.bep.cleavage_reactions)) for r in _surface_rxns(o)]
+
+
+def _check_backlinks(ctx, obj, o1, txt1, lengths_before):
+    """The lists an OpenMKM BEP keeps of the reactions that use it are rebuilt by the constructors
+    on decode (they are not serialised).  They must describe the decoded tree and nothing else, the
+    original tree must be left alone and decoding must be repeatable."""
+    from pmutt.io.json import json_to_pmutt
+    if not lengths_before and not _surface_rxns(o1):
+        return
+    rs = _surface_rxns(o1)
+    beps = {}
+    for r in rs:
+        beps.setdefault(id(r.bep), r.bep)
+    for B in beps.values():
+        for d in ('synthesis', 'cleavage'):
+            attr = d + '_reactions'
+            want = sorted(id(r) for r in rs if r.bep is B and r.direction == d)
+            have = getattr(B, attr, None)
+            got = sorted(id(x) for x in have) if isinstance(have, list) else None
+            ctx.check('J4', got == want, {'class': 'omkm.BEP', 'step': 'attr', 'attr': attr, 'what': 'backlinks'},
+                      listed=None if got is None else len(got), expected=len(want),
+                      foreign=None if got is None else len([i for i in got if i not in want]))
+    # the original objects are not touched by decoding
+    after = _bep_lengths(obj)
+    for k, attr in enumerate(('synthesis_reactions', 'cleavage_reactions')):
+        ctx.check('J5', [x[k] for x in after] == [x[k] for x in lengths_before],
+                  {'class': 'omkm.BEP', 'step': 'attr', 'attr': attr, 'what': 'original_mutated'},
+                  before=[x[k] for x in lengths_before], after=[x[k] for x in after])
+    # decoding again gives the same picture
+    first = _bep_lengths(o1)
+    try:
+        o2 = json.loads(txt1, object_hook=json_to_pmutt)
+    except Exception:                              # noqa: reported by J2 / J5 elsewhere
+        return
+    second = _bep_lengths(o2)
+    for k, attr in enumerate(('synthesis_reactions', 'cleavage_reactions')):
+        ctx.check('J5', [x[k] for x in second] == [x[k] for x in first],
+                  {'class': 'omkm.BEP', 'step': 'attr', 'attr': attr, 'what': 'not_repeatable'},
+                  first=[x[k] for x in first], second=[x[k] for x in second])
+
+
+def _telemetry_no_p_adj(ctx):
+    """gas species built with add_gas_P_adj=False: does the reload attach a GasPressureAdj?"""
+    import numpy as np
+    from pmutt.empirical.nasa import Nasa
+    from pmutt.io.json import pmuttEncoder, json_to_pmutt
+    ex = ctx.extra.setdefault('add_gas_P_adj_False', {})
+    try:
+        n = Nasa(name='x', T_low=100., T_mid=500., T_high=1000., a_low=np.ones(7), a_high=np.ones(7),
+                 phase='G', add_gas_P_adj=False)
+        m = json.loads(json.dumps(n, cls=pmuttEncoder), object_hook=json_to_pmutt)
+        same = len(n.misc_models or []) == len(m.misc_models or [])
+        k = 'misc_models_kept' if same else 'pressure_adjustment_attached_on_reload'
+    except Exception as e:                         # noqa
+        k = 'raises_' + type(e).__name__
+    ex[k] = ex.get(k, 0) + 1
 
 
 def _encode(ctx, obj, top, repeat):
@@ -1391,6 +1592,7 @@ def run_case(spec, ctx):
     from pmutt.io.json import json_to_pmutt
     if spec.get('telemetry'):
         _telemetry_extended_lsr(ctx)
+        _telemetry_no_p_adj(ctx)
         return
     top = spec['cls']
     _classify(spec, ctx)
@@ -1406,6 +1608,7 @@ def run_case(spec, ctx):
         raise core.HarnessError('factory built %s for %s' % (cname(obj), top))
 
     # ---- first cycle: J1, J2, then J3/J4 against the original ---------------------------------
+    bep_lengths = _bep_lengths(obj)
     txt1 = _encode(ctx, obj, top, False)
     if txt1 is None:
         return
@@ -1416,6 +1619,7 @@ def run_case(spec, ctx):
     cmp1.dirty = cmp1.obj(obj, o1)
     if type(o1) is not type(obj):
         return
+    _check_backlinks(ctx, obj, o1, txt1, bep_lengths)
 
     # ---- J5: direct use of the object hook on a dictionary ---------------------------------------
     d = json.loads(txt1)
